@@ -303,6 +303,13 @@ class Engine:
         a = self.eval(node.left, st, spec)
         b = self.eval(node.right, st, spec)
         op = type(node.op).__name__
+        if not spec:
+            # arithmetic on None raises TypeError
+            from .builtins_ import unwrap_opt
+            if isinstance(a, V) and isinstance(a.ty, TOpt) and isinstance(a.ty.inner, TInt):
+                a = unwrap_opt(self, st, a, self.origin(node))
+            if isinstance(b, V) and isinstance(b.ty, TOpt) and isinstance(b.ty.inner, TInt):
+                b = unwrap_opt(self, st, b, self.origin(node))
         if op == "Add":
             return py_add(self, a, b)
         return py_arith(self, op, a, b)
